@@ -9,7 +9,8 @@ BOTH = ("checked", "release")
 
 CHECKS = {
     "C01": dict(
-        families=lambda tier: [fam("step", BOTH, shards=8, crumbs=True), fam("bfs", BOTH, shards=8, crumbs=True), fam("programs", BOTH, shards=4, crumbs=True), fam("generated", ("checked",), crumbs=True)],
+        # quick: the BFS runs in the overflow-checking build only (the release build is swept by step/programs); thorough: both
+        families=lambda tier: [fam("step", BOTH, shards=8, crumbs=True), fam("bfs", BOTH if tier == "thorough" else ("checked",), shards=16 if tier != "thorough" else 8, crumbs=True), fam("programs", BOTH, shards=4, crumbs=True), fam("generated", ("checked",), crumbs=True)],
         death_is_verdict=True,
         wall_cap=dict(quick=900, thorough=14400),
         rule="(bfs) the interpreter as a transition system from an empty and a fully populated state: before each real step the environment may put one more token on EXEC -- any of the registered instruction names, 24 literals incl. extreme ints, NaN/inf floats, empty and mismatched vectors, quoted and self-re-arming items -- or let pending code run; states de-duplicated on the canonical snapshot; (programs) every token tree up to 3 points over a 40-token control alphabet and up to 4 (5) points over a sub-alphabet, from three initial states, through PushInterpreter::run with small limits AND by single steps; nesting ladder 1..512 for parse, print, Item::size and run; (generated) every program emitted by CodeGenerator::random_code_with_size for sizes 1..N over the registry (minus allocation-sizing instructions) under all RNG scripts with <= 1 deviation, executed both ways; (step) every registered instruction by NAME (the list comes from InstructionSet::cache, so new instructions are swept automatically) x operand product of the boundary alphabets at exact depth and with bystanders x every operand-missing pattern x {empty, fully populated} state, executed by PushInterpreter::step in an overflow-checking and in a release build, in supervised worker processes (address-space limit; an abort is attributed to its case by a breadcrumb and replayed); oracle = returns normally",
